@@ -3,11 +3,12 @@
 import json, os, shutil, subprocess, sys
 V = os.path.dirname(os.path.dirname(os.path.abspath(__file__)))
 pid = sys.argv[1]
-src = '/tmp/seed_%s_out' % pid
+rnd = 2 if '--round2' in sys.argv else 1
+src = ('/tmp/seed2_%s_out' if rnd == 2 else '/tmp/seed_%s_out') % pid
 for i in (1, 2):
     if not os.path.exists(os.path.join(src, 'patch%d.diff' % i)):
         continue
-    d = os.path.join(V, 'seeded', '%s-%d' % (pid, i))
+    d = os.path.join(V, 'seeded', '%s-%d' % (pid, i + 2 * (rnd - 1)))
     os.makedirs(d, exist_ok=True)
     shutil.copy(os.path.join(src, 'patch%d.diff' % i), os.path.join(d, 'patch.diff'))
     shutil.copy(os.path.join(src, 'demo%d.py' % i), os.path.join(d, 'demo.py'))
@@ -16,8 +17,9 @@ for i in (1, 2):
     except Exception:
         meta = {}
     meta['property'] = pid
+    meta['round'] = rnd
     json.dump(meta, open(os.path.join(d, 'meta.json'), 'w'), indent=1)
-    r = subprocess.run([sys.executable, os.path.join(V, 'tools', 'try_seed.py'), d] + sys.argv[2:], capture_output=True, text=True)
+    r = subprocess.run([sys.executable, os.path.join(V, 'tools', 'try_seed.py'), d] + [a for a in sys.argv[2:] if a != '--round2'], capture_output=True, text=True)
     out = r.stdout
     try:
         res = json.loads(out[:out.rindex('}') + 1])
